@@ -4,6 +4,7 @@ Abstract cursor value along a path: a version number that changes with every cur
 call that may advance it, a flag 'wild' after `pos += n` until the end check, and a relation to
 the position at entry ('start' / 'moved' / 'end').  Saved cursors (token->ptr, locals) remember
 the version they were copied from."""
+import re
 from sa import cfg as C
 from sa import paths as P
 from .lexmodel import base_of_member, arg_base, EOS_TESTS
@@ -67,6 +68,7 @@ class Sim:
         self.ptr_adjust = 0
         self.problems = []            # (rule-suffix, node, text)
         self.advancers = []           # calls that may have advanced since the last restore
+        self.steps1 = 0               # own one-byte advances since the start / the last restore to the start
         self.call_pre = {}            # call node id -> (ver before, rel before, ver after)
         self.run()
 
@@ -203,6 +205,7 @@ class Sim:
                 if self.wild:
                     self.problems.append(("L4", n, "cursor stepped while it may point past the end of input"))
                 self.bump("moved")
+                self.steps1 += 1
             elif op == "+=":
                 amount = n.child(1).strip_all_casts().src
                 pre = getattr(self, "prechecked", {}).get(amount)
@@ -216,6 +219,8 @@ class Sim:
                     rel = self.pos_of_ver.get(v[1], "moved")
                     self.bump(rel)
                     self.wild = False
+                    if rel == "start":
+                        self.steps1 = 0
                 elif v == ("end",):
                     self.bump("end")
                     self.wild = False
@@ -270,7 +275,8 @@ def recognisers(prog):
     for f in prog.functions.values():
         if not f.relfile.endswith("lexer.c"):
             continue
-        if len(f.params) >= 2 and "_lex_state_t" in f.params[0]["type"]["ct"] and "_scpi_token_t" in f.params[1]["type"]["ct"]:
+        if len(f.params) >= 2 and "_lex_state_t" in f.params[0]["type"]["ct"] and \
+                re.search(r"\b_scpi_token_t\b", f.params[1]["type"]["ct"] or "") and f.params[1]["type"].get("tk") == "ptr":
             out.append(f)
     return sorted(out, key=lambda f: f.line)
 
